@@ -39,10 +39,11 @@ theorem C02_hdr_fields (m : Meta) (ch : Bytes) (h : TarHdr) (m' : Meta)
     subst h1
     unfold tarHdrToMeta at h2
     simp only at h2
+    simp only [C02_type_roundtrip m.kind t hk] at h2
     cases hn : mustRel (if m.kind = Kind.dir then m.name.str ++ [slash] else m.name.str) with
     | none => simp [hn] at h2
     | some n =>
-      simp only [hn, C02_type_roundtrip m.kind t hk] at h2
+      simp only [hn] at h2
       injection h2 with h2
       subst h2
       refine ⟨rfl, ?_, ?_, ?_, rfl, rfl, rfl, rfl, rfl, rfl⟩
